@@ -35,6 +35,24 @@ def gen(seed, idx, tier):
         p.update(screening=True, steps=(2, 6), n_terminals=0, field_kinds=("const", "ramp"))
     scn = scen.gen_physics(rnd, **p)
     scn["meta"]["flavour"] = flavour
+    if rnd.random() < 0.06:
+        # a step that has no solution only under the contacts: terminals left free (terminal_psi=None) on a
+        # box with contacts at its two ends, epsilon = -1 there and 1 in between, one large time step
+        scn["device"]["film"] = {"kind": "box", "w": scn["device"]["film"].get("w", 5.13), "h": scn["device"]["film"].get("h", 3.07), "npts": 24}
+        scn["device"]["holes"] = []
+        scn["device"]["probes"] = None
+        scn["device"]["terminals"] = [{"name": "source", "side": "left", "span": [0.112, 0.887], "depth": 0.3}, {"name": "drain", "side": "right", "span": [0.113, 0.886], "depth": 0.3}]
+        scn["device"]["layer"]["gamma"] = rnd.choice([10.0, 1.0])
+        scn["options"]["terminal_psi"] = rnd.choice([None, None, 0.0])
+        xi_ = scn["device"]["layer"]["xi"]
+        scn["drive"]["epsilon"] = {"kind": "ends", "x0": scen.r3(0.5 * scn["device"]["film"]["w"] * xi_ - 0.35 * xi_), "lo": rnd.choice([-1.0, -0.5]), "hi": 1.0}
+        scn["drive"]["currents"] = rnd.choice([None, {"kind": "const", "I": {"source": 1.0 * scen.CUR_FACTOR[scn["options"]["current_units"]], "drain": -1.0 * scen.CUR_FACTOR[scn["options"]["current_units"]]}}])
+        scn["drive"]["field"] = {"kind": "zero"}
+        dt_ = rnd.choice([10.0, 20.0, 50.0])
+        scn["options"].update(dt_init=dt_, dt_max=max(dt_, scn["options"].get("dt_max", 0.1)), adaptive=rnd.random() < 0.5, solve_time=scen.r3(dt_ * rnd.randint(1, 3)), skip_time=0.0, include_screening=False)
+        scn["faults"] = []
+        scn["meta"]["flavour"] = "ends"
+        return scn
     if rnd.random() < 0.15:
         # solver life cycle: solve() twice on the same TDGLSolver object; or an interrupt inside the
         # update followed by a resume (the abandoned step's side effects must not leak)
